@@ -97,7 +97,10 @@ def cases(draw, cfg, scen=None):
     rnd = [draw(st.lists(st.integers(0, len(parts) - 1), min_size=5, max_size=60)) for _ in range(draw(st.integers(2, 6)))]
     # the processes may also share ONE handle opened before they were forked (a worker pool); sqlite connections must not cross a fork
     shared = cfg != 'sql_file' and draw(st.integers(0, 3)) == 0
-    return {'cfg': cfg, 'keys': pool, 'vals': vals, 'init': init, 'parts': parts, 'scen': scen, 'rand': rnd, 'shared': shared}
+    # single-file archives: readers / openers construct the archive object itself in most cases; with the user-level
+    # klepto.archives.file_archive(name) every open also runs update({}) = read + re-save, which is the open finding D12f
+    lowlevel = cfg in FILELIKE and not shared and draw(st.integers(0, 3)) > 0
+    return {'cfg': cfg, 'keys': pool, 'vals': vals, 'init': init, 'parts': parts, 'scen': scen, 'rand': rnd, 'shared': shared, 'lowlevel': lowlevel}
 
 
 SCENARIOS = dict((c, ['ww', 'wr', 'or', 'wo', 'wwr'] if c in DIRLIKE else ['wr', 'or', 'wo']) for c in CONFIGS)
@@ -109,41 +112,62 @@ def strata(tier):
 
 # ------------------------------------------------------------ participants
 
-def participant(cfg, root, op, keys, vals, shared=None):
+_KEEP = []      # handles of a participant stay referenced while its process lingers (a dropped sqlite connection would release its locks)
+
+
+def participant(cfg, root, op, keys, vals, shared=None, lowlevel=False):
     def fn():
         kind = op[0]
+        if lowlevel and kind != 'set':
+            a = A.open_lowlevel(cfg, root, 'A')
+            if kind in ('load', 'loadk'):
+                import klepto.archives as ka
+                c = ka.cache(archive=a)
+                if kind == 'load':
+                    c.load()
+                else:
+                    c.load(keys[op[1]])
+                return dict(c)
+            return _read(a, op, keys)
         if kind == 'load' or kind == 'loadk':
             if shared is not None:
                 import klepto.archives as ka
                 c = ka.cache(archive=shared)
             else:
                 c = A.open_archive(cfg, root, 'A', cached=True)
+            _KEEP.append(c)
             if kind == 'load':
                 c.load()
             else:
                 c.load(keys[op[1]])
             return dict(c)
         a = shared if shared is not None else A.open_archive(cfg, root, 'A')
+        _KEEP.append(a)
         if kind == 'set':
             a[keys[op[1]]] = vals[op[2]]
             return None
-        if kind == 'get':
-            try:
-                return ('value', a[keys[op[1]]])
-            except KeyError:
-                return ('KeyError',)
-        if kind == 'in':
-            return keys[op[1]] in a
-        if kind == 'len':
-            return len(a)
-        if kind == 'list':
-            return list(a)
-        if kind == 'items':
-            return dict(a.items())
-        if kind == 'open':
-            return None
-        raise ValueError(kind)
+        return _read(a, op, keys)
     return fn
+
+
+def _read(a, op, keys):
+    kind = op[0]
+    if kind == 'get':
+        try:
+            return ('value', a[keys[op[1]]])
+        except KeyError:
+            return ('KeyError',)
+    if kind == 'in':
+        return keys[op[1]] in a
+    if kind == 'len':
+        return len(a)
+    if kind == 'list':
+        return list(a)
+    if kind == 'items':
+        return dict(a.items())
+    if kind == 'open':
+        return None
+    raise ValueError(kind)
 
 
 def run_case(case):
@@ -160,7 +184,8 @@ def _run(case, base):
     vals = [V.build(s) for s in case['vals']]
     parts = case['parts']
     opk = '|'.join(p[0] for p in parts)
-    classes = ['cfg:' + cfg, 'scen:' + case['scen']] + ['reader:' + p[0] for p in parts if p[0] in READS] + (['shared_handle'] if case.get('shared') else [])
+    classes = ['cfg:' + cfg, 'scen:' + case['scen']] + ['reader:' + p[0] for p in parts if p[0] in READS] + (['shared_handle'] if case.get('shared') else []) + \
+        (['file_lowlevel_open'] if case.get('lowlevel') else [])
     I = dict((keys[i], copy.deepcopy(vals[j])) for i, j in case['init'])
     W = {}
     for p in parts:
@@ -172,6 +197,8 @@ def _run(case, base):
     def mk():
         a = A.open_archive(cfg, tmpl, 'A')
         for i, j in case['init']:
+            if cfg == 'sql_file':
+                a[keys[i]] = vals[(j + 1) % len(vals)]      # the initial entries have a history: the sqlite table keeps superseded rows
             a[keys[i]] = vals[j]
     procs.in_fork(mk)
     nts = Multi()
@@ -184,11 +211,13 @@ def _run(case, base):
         counter[0] += 1
         shutil.copytree(tmpl, root)
         handle = A.open_archive(cfg, root, 'A') if case.get('shared') else None      # opened before the fork, inherited by every participant
-        fns = [participant(cfg, root, p, keys, vals, handle) for p in parts]
-        results, trace = sched.run(fns, root, schedule)
+        fns = [participant(cfg, root, p, keys, vals, handle, bool(case.get('lowlevel'))) for p in parts]
+        # sqlite: the processes stay alive and idle after their operation (connections, and any lock they still hold, stay open)
+        results, trace = sched.run(fns, root, schedule, linger=(cfg == 'sql_file'))
+        tails = getattr(sched.run, 'last_alone_tails', [0] * len(parts))
         nts.evals += 1
         final = procs.in_fork(lambda: _final(cfg, root))
-        d = judge(cfg, case, parts, keys, vals, I, W, results, final, trace, label)
+        d = judge(cfg, case, parts, keys, vals, I, W, results, final, trace, label, tails)
         shutil.rmtree(root, ignore_errors=True)
         # switches strictly inside both operations
         order = [t[0] for t in trace]
@@ -252,7 +281,7 @@ def _in(d, k):
     return (False, None)
 
 
-def judge(cfg, case, parts, keys, vals, I, W, results, final, trace, label):
+def judge(cfg, case, parts, keys, vals, I, W, results, final, trace, label, tails=()):
     tag = cfg
     filelike = cfg in FILELIKE
     ever_keys = list(I) + [k for k in W if not _in(I, k)[0]]
@@ -270,10 +299,14 @@ def judge(cfg, case, parts, keys, vals, I, W, results, final, trace, label):
         return vs
     where = '%s; trace %s' % (label, ' '.join('%d:%s' % (t[0], t[2]) for t in trace[:80]))
     locked = False
-    for p, r in zip(parts, results):
+    for pi, (p, r) in enumerate(zip(parts, results)):
         kind = p[0]
         if r[0] != 'ok':
             if cfg == 'sql_file' and 'locked' in r[2]:
+                if pi < len(tails) and tails[pi] >= 30:
+                    # every other process had finished its operation and sat idle while this one used up its whole retry budget:
+                    # an idle process kept the database locked
+                    return Discrepancy('C14/%s/%s/operation-failed/locked-by-an-idle-process' % (tag, kind), '%r raised %s after %d retries with every other process idle (%s)' % (p, r[2], tails[pi], where))
                 locked = True
                 continue
             return Discrepancy('C14/%s/%s/operation-failed/%s' % (tag, kind, r[1]), '%r raised %s (%s)' % (p, r[2], where))
@@ -328,13 +361,13 @@ def judge(cfg, case, parts, keys, vals, I, W, results, final, trace, label):
     return None
 
 
-REQUIRED_CLASSES = ['shared_handle', 'interleaved', 'atomic_placement', 'random_schedule', 'scen:ww', 'scen:wr', 'scen:or', 'scen:wo', 'scen:wwr'] + ['cfg:' + c for c in CONFIGS] + \
+REQUIRED_CLASSES = ['file_lowlevel_open', 'shared_handle', 'interleaved', 'atomic_placement', 'random_schedule', 'scen:ww', 'scen:wr', 'scen:or', 'scen:wo', 'scen:wwr'] + ['cfg:' + c for c in CONFIGS] + \
     ['reader:' + r for r in READS]
 
 
 def _t_file_open(case, discr):
     # every participant opens the archive through klepto.archives.file_archive, i.e. runs update({}) = read + re-save
-    return case['cfg'] in FILELIKE and len(case['parts']) >= 2 and any(p[0] == 'set' for p in case['parts'])
+    return case['cfg'] in FILELIKE and not case.get('lowlevel') and len(case['parts']) >= 2 and any(p[0] == 'set' for p in case['parts'])
 
 
 TRIGGERS = {'file_concurrent_open': _t_file_open}
